@@ -49,7 +49,9 @@ def tleEpoch (off : Nat → Int) (utc : Nat) (d : Date) : Int := utcReading off 
 def dt (date epoch : Date) : Int := sub date epoch
 def abscissa (d : Date) : Int := d.inst
 
-/-- the EOP record is chosen by the day number of the reading in the date's OWN scale -/
-def eopDay (off : Nat → Int) (d : Date) : Int := reading off d / 86400000000
+/-- the EOP record is chosen by the day number of the UTC reading (since fix fc514f7; before it, by the day number
+of the reading in the date's OWN scale — `eopDayOwnScale`, kept for the regression witness) -/
+def eopDay (off : Nat → Int) (utc : Nat) (d : Date) : Int := utcReading off utc d / 86400000000
+def eopDayOwnScale (off : Nat → Int) (d : Date) : Int := reading off d / 86400000000
 
 end BeyondVerif.DateUse
